@@ -96,6 +96,9 @@ def chunkValidate (cs : Int) : Stmt → Bool
   | .loop h body _ =>
     (match h.step with
      | .lit k => decide (k.natAbs ≤ cs.natAbs) && decide (k ≠ 0)
+                 -- fix 9fb9247: the step must divide the chunk size; fix bed3b8a: the bounds must not
+                 -- mention the loop variable (both are refusals of validate, before any mutation)
+                 && decide (cs.natAbs % k.natAbs = 0) && !(h.start ++ h.stop).contains h.var
      | .expr _ => false)
     && !h.chunked && !hasCB body
     && (h.var :: (h.start ++ h.stop)).all (fun v => !(writes body).contains v)
